@@ -463,121 +463,144 @@ func c11Writer(c *Ctx) {
 		call, ok := in.(*ssa.Call)
 		return ok && call.Call.IsInvoke() && call.Call.Method.Name() == "Write"
 	}
-	reps := []int64{0, 1, 125, 126, 127, 128, 255, 256, 65535, 65536, 65537, 1 << 24, 1<<31 - 1}
-	for _, E := range reps {
-		for _, bin := range []bool{false, true} {
-			env := &constEnv{byValue: map[ssa.Value]int64{elCall: E}, boolT: map[string]bool{}, byTerm: map[string]int64{}}
-			for _, t := range binTerms {
-				env.boolT[t] = bin
-			}
-			construct := fmt.Sprintf("webtransport.send/len=%d,binary=%v", E, bin)
-			paths, complete := prunedPaths(fn, env, isHdrWrite, 16)
-			if !complete || len(paths) != 1 || paths[0].Loops {
-				c.Ob("C11-D2", construct, fn.Pos(), false, fmt.Sprintf("expected one header-building path for this length class, found %d", len(paths)))
-				continue
-			}
-			pa := paths[0]
-			wcall := pa.End.(*ssa.Call)
-			hdr := resolvePhi(wcall.Call.Args[0], pa.PhiSrc)
-			al, K, off, okA := arrayBehind(hdr)
-			if !okA || off != 0 {
-				c.Ob("C11-D2", construct, wcall.Pos(), false, "the header written is "+Term(hdr)+": not a locally built buffer")
-				continue
-			}
-			// fold the stores into the header along the path
-			bytes := map[int64]int64{}
-			var puts []string
-			ok, detail := true, ""
-			for _, in := range pa.Instrs {
-				switch x := in.(type) {
-				case *ssa.Store:
-					ia, isIA := x.Addr.(*ssa.IndexAddr)
-					if !isIA {
-						continue
-					}
-					base := resolvePhi(ia.X, pa.PhiSrc)
-					al2, _, off2, ok2 := arrayBehind(base)
-					if !ok2 || al2 != al {
-						continue
-					}
-					idx, known := env.evalInt(ia.Index, pa.PhiSrc, 0)
-					if !known {
-						ok, detail = false, "store to the header at a non-constant index"
-						continue
-					}
-					// loads of the header byte being updated (header[0] |= 0x80)
-					for i, bv := range bytes {
-						_ = i
-						_ = bv
-					}
-					env2 := &constEnv{byValue: env.byValue, boolT: env.boolT, byTerm: map[string]int64{}}
-					if bo, isBO := x.Val.(*ssa.BinOp); isBO {
-						for _, opnd := range []ssa.Value{bo.X, bo.Y} {
-							if u, isU := opnd.(*ssa.UnOp); isU && u.Op == token.MUL {
-								if ia2, isIA2 := u.X.(*ssa.IndexAddr); isIA2 {
-									if j, kn := env.evalInt(ia2.Index, pa.PhiSrc, 0); kn {
-										env2.byTerm[Term(u)] = bytes[j+off2]
-									}
+	check := func(E int64, bin bool) (bool, string, token.Pos) {
+		env := &constEnv{byValue: map[ssa.Value]int64{elCall: E}, boolT: map[string]bool{}, byTerm: map[string]int64{}}
+		for _, t := range binTerms {
+			env.boolT[t] = bin
+		}
+		paths, complete := prunedPaths(fn, env, isHdrWrite, 16)
+		if !complete || len(paths) != 1 || paths[0].Loops {
+			return false, fmt.Sprintf("expected one header-building path for this length class, found %d", len(paths)), fn.Pos()
+		}
+		pa := paths[0]
+		wcall := pa.End.(*ssa.Call)
+		hdr := resolvePhi(wcall.Call.Args[0], pa.PhiSrc)
+		al, K, off, okA := arrayBehind(hdr)
+		if !okA || off != 0 {
+			return false, "the header written is " + Term(hdr) + ": not a locally built buffer", wcall.Pos()
+		}
+		// fold the stores into the header along the path
+		bytes := map[int64]int64{}
+		var puts []string
+		ok, detail := true, ""
+		for _, in := range pa.Instrs {
+			switch x := in.(type) {
+			case *ssa.Store:
+				ia, isIA := x.Addr.(*ssa.IndexAddr)
+				if !isIA {
+					continue
+				}
+				base := resolvePhi(ia.X, pa.PhiSrc)
+				al2, _, off2, ok2 := arrayBehind(base)
+				if !ok2 || al2 != al {
+					continue
+				}
+				idx, known := env.evalInt(ia.Index, pa.PhiSrc, 0)
+				if !known {
+					ok, detail = false, "store to the header at a non-constant index"
+					continue
+				}
+				// loads of the header byte being updated (header[0] |= 0x80)
+				for i, bv := range bytes {
+					_ = i
+					_ = bv
+				}
+				env2 := &constEnv{byValue: env.byValue, boolT: env.boolT, byTerm: map[string]int64{}}
+				if bo, isBO := x.Val.(*ssa.BinOp); isBO {
+					for _, opnd := range []ssa.Value{bo.X, bo.Y} {
+						if u, isU := opnd.(*ssa.UnOp); isU && u.Op == token.MUL {
+							if ia2, isIA2 := u.X.(*ssa.IndexAddr); isIA2 {
+								if j, kn := env.evalInt(ia2.Index, pa.PhiSrc, 0); kn {
+									env2.byTerm[Term(u)] = bytes[j+off2]
 								}
 							}
 						}
 					}
-					v, known := env2.evalInt(x.Val, pa.PhiSrc, 0)
-					if !known {
-						ok, detail = false, "header byte stored with a value that does not fold: "+Term(x.Val)
-						continue
-					}
-					bytes[idx+off2] = v & 0xff
-				case *ssa.Call:
-					name, cl, isBE := bigEndianCall(in)
-					if !isBE {
-						continue
-					}
-					al2, _, off2, ok2 := arrayBehind(resolvePhi(cl.Call.Args[1], pa.PhiSrc))
-					if !ok2 || al2 != al {
-						continue
-					}
-					v, known := env.evalInt(cl.Call.Args[2], pa.PhiSrc, 0)
-					if !known {
-						ok, detail = false, name+" of a value that does not fold: "+Term(cl.Call.Args[2])
-						continue
-					}
-					width := map[string]int64{"PutUint16": 2, "PutUint32": 4, "PutUint64": 8}[name]
-					for i := int64(0); i < width; i++ {
-						bytes[off2+i] = (v >> uint(8*(width-1-i))) & 0xff
-					}
-					puts = append(puts, name)
+				}
+				v, known := env2.evalInt(x.Val, pa.PhiSrc, 0)
+				if !known {
+					ok, detail = false, "header byte stored with a value that does not fold: "+Term(x.Val)
+					continue
+				}
+				bytes[idx+off2] = v & 0xff
+			case *ssa.Call:
+				name, cl, isBE := bigEndianCall(in)
+				if !isBE {
+					continue
+				}
+				al2, _, off2, ok2 := arrayBehind(resolvePhi(cl.Call.Args[1], pa.PhiSrc))
+				if !ok2 || al2 != al {
+					continue
+				}
+				v, known := env.evalInt(cl.Call.Args[2], pa.PhiSrc, 0)
+				if !known {
+					ok, detail = false, name+" of a value that does not fold: "+Term(cl.Call.Args[2])
+					continue
+				}
+				width := map[string]int64{"PutUint16": 2, "PutUint32": 4, "PutUint64": 8}[name]
+				for i := int64(0); i < width; i++ {
+					bytes[off2+i] = (v >> uint(8*(width-1-i))) & 0xff
+				}
+				puts = append(puts, name)
+			}
+		}
+		// expected header
+		flag := int64(0)
+		if bin {
+			flag = 0x80
+		}
+		var want []int64
+		switch {
+		case E < 126:
+			want = []int64{E | flag}
+		case E < 65536:
+			want = []int64{126 | flag, E >> 8, E & 0xff}
+		default:
+			want = []int64{127 | flag}
+			for i := 7; i >= 0; i-- {
+				want = append(want, (E>>uint(8*i))&0xff)
+			}
+		}
+		if ok && K != int64(len(want)) {
+			ok, detail = false, fmt.Sprintf("header has %d bytes, the protocol form for length %d has %d", K, E, len(want))
+		}
+		if ok {
+			for i, w := range want {
+				if bytes[int64(i)] != w {
+					ok, detail = false, fmt.Sprintf("header byte %d is 0x%02x, expected 0x%02x (header built: %v, expected %v)", i, bytes[int64(i)], w, headerBytes(bytes, K), want)
+					break
 				}
 			}
-			// expected header
-			flag := int64(0)
-			if bin {
-				flag = 0x80
-			}
-			var want []int64
-			switch {
-			case E < 126:
-				want = []int64{E | flag}
-			case E < 65536:
-				want = []int64{126 | flag, E >> 8, E & 0xff}
-			default:
-				want = []int64{127 | flag}
-				for i := 7; i >= 0; i-- {
-					want = append(want, (E>>uint(8*i))&0xff)
-				}
-			}
-			if ok && K != int64(len(want)) {
-				ok, detail = false, fmt.Sprintf("header has %d bytes, the protocol form for length %d has %d", K, E, len(want))
-			}
-			if ok {
-				for i, w := range want {
-					if bytes[int64(i)] != w {
-						ok, detail = false, fmt.Sprintf("header byte %d is 0x%02x, expected 0x%02x (header built: %v, expected %v)", i, bytes[int64(i)], w, headerBytes(bytes, K), want)
+		}
+		return ok, detail, wcall.Pos()
+	}
+	reps := []int64{0, 1, 125, 126, 127, 128, 255, 256, 65535, 65536, 65537, 1 << 24, 1<<31 - 1}
+	for _, E := range reps {
+		for _, bin := range []bool{false, true} {
+			ok, detail, pos := check(E, bin)
+			c.Ob("C11-D2", fmt.Sprintf("webtransport.send/len=%d,binary=%v", E, bin), pos, ok, detail)
+		}
+	}
+	if c.Tier == "thorough" {
+		// every frame length 0..70000 (the property's quantifier), aggregated per form class
+		type cls struct {
+			name   string
+			lo, hi int64
+		}
+		for _, cl := range []cls{{"7-bit form, lengths 0..125", 0, 125}, {"16-bit form, lengths 126..65535", 126, 65535}, {"64-bit form, lengths 65536..70000", 65536, 70000}} {
+			for _, bin := range []bool{false, true} {
+				ok, detail, pos := true, "", fn.Pos()
+				n := 0
+				for E := cl.lo; E <= cl.hi; E++ {
+					n++
+					if o, d, ps := check(E, bin); !o {
+						ok, detail, pos = false, fmt.Sprintf("length %d: %s", E, d), ps
 						break
 					}
 				}
+				c.Ob("C11-D2", fmt.Sprintf("webtransport.send/every length: %s,binary=%v", cl.name, bin), pos, ok, detail)
+				c.Note("C11-D2 thorough: writer header folded for %d lengths of the %s (binary=%v)", n, cl.name, bin)
 			}
-			c.Ob("C11-D2", construct, wcall.Pos(), ok, detail)
 		}
 	}
 	// after the header, the packet itself, with the supportsBinary EncodedLen was asked for
